@@ -641,3 +641,14 @@ Proof.
   intros Hil. unfold brevity, qdivx, qeq. destruct (qlt tl il); [reflexivity|].
   destruct (Qc_eq_dec il 0) as [E|_]; [contradiction|reflexivity].
 Qed.
+
+(* REFUTED: "on an accepted corpus with at least one matching n-gram compute() is a number".
+   Witness: n_gram = 2, weights (1, 0), candidate "1 2", reference "1 3": unigram precision 1/2, no
+   bigram match, and 0 * log 0 = nan (the product form  bp * p1^1 * p2^0  would give 1/2). *)
+Lemma bleu_zero_weight_witness :
+  let c : bcfg := (2, Some [Q2Qc 1; Q2Qc 0]) in
+  let b : bbatch := [([1; 2]%Z, [[1; 3]%Z])] in
+  bleu_ok (fst c) b = true /\ bleu_matches sent_matches (fst c) b = [1; 0] /\
+  bleu_gamma c (bleu_beta c b) = xq_val NaN /\
+  xr_val (bleu_of_stats c (bleu_beta c b)) = xq_val NaN.
+Proof. vm_compute. repeat split; reflexivity. Qed.
